@@ -9,3 +9,4 @@ mod c15;
 mod c19;
 mod c15geo;
 mod c15pyr;
+mod c05;
